@@ -52,7 +52,7 @@ PROPS["C01"] = dict(
          "executions with >= 1 deviation",
     bound_note="per-cell bound_completed in coverage.cells",
     assumptions=E1_ASSUME,
-    deadline=dict(quick=240, thorough=3000),
+    deadline=dict(quick=240, thorough=2400),
     technique="stateless model checking of the implementation: exhaustive "
               "deviation-bounded schedule enumeration (gsched) of for_each "
               "over every shipped worklist policy",
@@ -234,7 +234,7 @@ PROPS["C02"] = dict(
     bound_note="per-cell bound_completed in coverage.cells; a check-then-act "
                "lock bug needs 2 deviations (thorough tier)",
     assumptions=E1_ASSUME,
-    deadline=dict(quick=200, thorough=3000),
+    deadline=dict(quick=200, thorough=1800),
     technique="stateless model checking of the implementation: exhaustive "
               "deviation-bounded schedule enumeration (gsched) of for_each "
               "with conflict detection",
@@ -266,7 +266,7 @@ PROPS["C08"] = dict(
          "among executions with >= 1 deviation",
     bound_note="per-cell bound_completed in coverage.cells",
     assumptions=E1_ASSUME,
-    deadline=dict(quick=220, thorough=3000),
+    deadline=dict(quick=220, thorough=1800),
     technique="stateless model checking of the implementation: exhaustive "
               "deviation-bounded schedule enumeration (gsched) of the "
               "level-synchronous schedulers",
@@ -299,7 +299,7 @@ PROPS["C07"] = dict(
          "with >= 1 deviation",
     bound_note="per-cell bound_completed in coverage.cells",
     assumptions=E1_ASSUME,
-    deadline=dict(quick=200, thorough=3000),
+    deadline=dict(quick=200, thorough=1800),
     technique="stateless model checking of the implementation: exhaustive "
               "deviation-bounded schedule enumeration (gsched) with a "
               "differential oracle across schedules and thread counts",
@@ -340,7 +340,7 @@ PROPS["C10"] = dict(
          "with >= 1 deviation",
     bound_note="per-cell bound_completed in coverage.cells",
     assumptions=E1_ASSUME,
-    deadline=dict(quick=200, thorough=3000),
+    deadline=dict(quick=200, thorough=2400),
     technique="stateless model checking of the implementation: exhaustive "
               "deviation-bounded schedule enumeration (gsched) with a "
               "serial-replay oracle on the same implementation",
@@ -429,7 +429,7 @@ PROPS["C17"] = dict(
         "one process plays all hosts through the reflector; real multi-"
         "process MPI transport is not explored",
         "serialisation half is checked by c17_serialize (seqx)"],
-    deadline=dict(quick=240, thorough=3000),
+    deadline=dict(quick=240, thorough=1800),
     technique="stateless model checking of the implementation with "
               "environment-answer enumeration (gsched + fake MPI reflector)",
     level_text="every schedule and environment-answer sequence with <= d "
@@ -502,7 +502,7 @@ PROPS["C16"] = dict(
          "trace hash with >= 1 deviation",
     bound_note="per-cell bounds in coverage.cells",
     assumptions=E2_ASSUME + E1_ASSUME,
-    deadline=dict(quick=240, thorough=3000),
+    deadline=dict(quick=240, thorough=1800),
     technique="bounded-exhaustive input enumeration (seqx) plus exhaustive "
               "deviation-bounded schedule enumeration (gsched) of the "
               "block-claiming helpers, both on the real ParallelSTL code",
@@ -587,7 +587,7 @@ PROPS["C12"] = dict(
     assumptions=E2_ASSUME + [
         "randomising conversions are checked for the documented invariant "
         "only (same structure, weights in range)"],
-    deadline=dict(quick=300, thorough=3000),
+    deadline=dict(quick=300, thorough=2400),
     technique="bounded-exhaustive enumeration of all graphs and text inputs "
               "below a size through the real readers, writers and the "
               "graph-convert tool, against independent encoders / decoders",
@@ -627,7 +627,7 @@ PROPS["C11"] = dict(
     assumptions=E2_ASSUME + E1_ASSUME + [
         "builders that do not compile are outside the property (opt-in "
         "diagnostic VERIF_COMPILE_PROBES=1)"],
-    deadline=dict(quick=300, thorough=3000),
+    deadline=dict(quick=300, thorough=2400),
     technique="bounded-exhaustive enumeration of all small multigraphs "
               "through every layout and view (seqx) plus exhaustive "
               "deviation-bounded schedule enumeration of the parallel "
@@ -713,7 +713,8 @@ PROPS["C20"] = dict(
 E4_ASSUME = [
     "schedules: cross-host message arrival order and thread schedules are NOT "
     "controlled (hosts are separate MPI processes); every mpirun session is "
-    "repeated r times (r=2 quick, r=3 thorough) and every cell says "
+    "repeated r times (r=2; r=3 in C19's thorough tier) and every cell "
+    "says "
     "'schedules: uncontrolled, r repetitions'",
     "hosts are h separate processes of ONE machine (Open MPI 4.1.4, "
     "shared-memory transport, --oversubscribe --bind-to none); no real "
